@@ -203,7 +203,23 @@ def run_script(text, env, fail, exe_code):
             continue
         if s.startswith('$RP_PROF') or s.startswith('ls | sort') \
            or s.startswith('. ') or s.startswith('rp_sync_ranks') \
-           or s.startswith('test "$RP_RANK" == "0" &&') or s == 'cd $RP_TASK_SANDBOX':
+           or s == 'cd $RP_TASK_SANDBOX':
+            continue
+        if s.startswith('test "$RP_RANK" == "0" && '):
+            # A && B [|| rp_error sig]: rp_error runs when A or B fails
+            rest = s[len('test "$RP_RANK" == "0" && '):]
+            err  = None
+            if ' || rp_error ' in rest:
+                rest, err = rest.rsplit(' || rp_error ', 1)
+            ok = env.get('RP_RANK') == '0'
+            if ok:
+                if rest.startswith('$RP_CTRL ') or rest.startswith('$RP_PROF'):
+                    ran.append('CTRL ' + rest.split()[2]
+                               if rest.startswith('$RP_CTRL') else 'PROF')
+                else:
+                    ok = run_cmd(rest) == 0
+            if not ok and err is not None:
+                return 1, ran, env
             continue
         if s.startswith('test -z "$') and '|| export ' in s:
             var = s[len('test -z "$'):s.index('"', 10)]
@@ -330,6 +346,33 @@ def build_exec_text(c, launcher, task):
     return tmp
 
 
+class _CapOS(object):
+    O_WRONLY = O_CREAT = O_TRUNC = 0
+    path = os.path
+    def __init__(self, written): self.written = written
+    def open(self, path=None, mode=None, flags=None): return 7
+    def write(self, fh, data): self.written['data'] = data.decode()
+    def close(self, fh): pass
+    def __getattr__(self, k): return getattr(os, k)
+
+
+class _CapRU(object):
+    def rec_makedir(self, p): pass
+    def __getattr__(self, k): return getattr(ru, k)
+
+
+def real_exec_text(c, launcher, task):
+    """the text the real _create_exec_script writes (os.write captured)"""
+    written = {}
+    saved = (m_xb.os, m_xb.ru)
+    m_xb.os, m_xb.ru = _CapOS(written), _CapRU()
+    try:
+        c._create_exec_script(launcher, task)
+    finally:
+        m_xb.os, m_xb.ru = saved
+    return written['data']
+
+
 def _validate_assembly():
     """the assembly above is the one _create_exec_script performs: compare on
     a concrete task with the real method writing through a captured os.write"""
@@ -377,7 +420,7 @@ ASSEMBLY_OK = _validate_assembly()
 
 @obligation(params={'ranks': (1, 3), 'rank': (0, 2), 'pp': (0, 11),
                     'fail': (0, 4), 'code': (0, 255),
-                    'gpu': (0, 2), 'misc': (0, 6)},
+                    'gpu': (0, 2), 'misc': (0, 7)},
             partition={'quick': ('pp', 12), 'thorough': ('pp', 12)},
             shapes={'quick': [{'small': True}], 'thorough': [{'small': False}]},
             timeout={'quick': 300, 'thorough': 1800},
@@ -394,15 +437,18 @@ ASSEMBLY_OK = _validate_assembly()
                    'GPUs per rank 0..2 with CUDA (quick 0..1); one of: OpenMP '
                    'threading / task environment / task name / named env + '
                    'environment / site task_pre_exec / site task_pre_exec '
-                   'after another task used the same component / none',
-            stubs=['file writes -> none (text assembled as '
-                   '_create_exec_script does; assembly validated against the '
-                   'real method on import)', 'registry -> constants'])
+                   'after another task used the same component / start-up '
+                   'time-out (start-up notification line) / none',
+            stubs=['os.open/os.write of _create_exec_script -> captured text',
+                   'registry -> constants'])
 def h_exec_script(ranks, rank, pp, fail, code, gpu, misc, small=False):
     """the exec script runs pre_exec, executable, post_exec as described"""
     if rank >= ranks: return
     if small and gpu == 2: return
-    pp, misc = conc(pp, 0, 11), conc(misc, 0, 6)
+    # quick: the description variants are not multiplied with every fault
+    if small and misc != 0 and fail > 1: return
+    if small and misc != 0 and gpu and pp > 2: return
+    pp, misc = conc(pp, 0, 11), conc(misc, 0, 7)
     pre, post = pp // 3, pp % 3
     omp, env, name = misc == 1, misc in (2, 4), misc == 3
     nenv, site, prev = misc == 4, misc in (5, 6), misc == 6
@@ -420,7 +466,7 @@ def h_exec_script(ranks, rank, pp, fail, code, gpu, misc, small=False):
                'post_exec': [], 'pre_exec_sync': False, 'named_env': '',
                'environment': {}, 'executable': '/bin/other', 'arguments': [],
                'startup_timeout': 0}
-        real(build_exec_text, c, mk_fork(),
+        real(real_exec_text, c, mk_fork(),
              {'uid': 'task.0006', 'task_sandbox_path': '/pilot/task.0006',
               'slots': [], 'description': ptd})
     pre_exec  = [[], ['ATOM_g'], ['ATOM_g', {'0': 'ATOM_r0', '1': 'ATOM_r1'}],
@@ -440,11 +486,11 @@ def h_exec_script(ranks, rank, pp, fail, code, gpu, misc, small=False):
           'named_env': 'env0' if nenv else '',
           'environment': {'MY_VAR': 'my value'} if env else {},
           'executable': '/bin/prog', 'arguments': ['arg1'],
-          'startup_timeout': 0}
+          'startup_timeout': 5 if misc == 7 else 0}
     task = {'uid': 'task.0007', 'task_sandbox_path': '/pilot/task.0007',
             'slots': slots, 'description': td}
     if name: task['name'] = 'my_task'
-    text = real(build_exec_text, c, lm, task)
+    text = real(real_exec_text, c, lm, task)
     start_env = {'MPI_RANK': str(rank)} if ranks > 1 else {}
     try:
         rc, ran, envf = run_script(text, start_env, failing, code)
